@@ -15,11 +15,15 @@ FABPFX = "FAB ((8, (64 11 52 0 1 12 0 1023)),(8, (8 7 6 5 4 3 2 1)))"
 
 FIELD_POOL = ["temp", "density", "x_velocity", "y_velocity", "Y(H2)", "Y(O2)", "mag_vort",
               "phi", "phi2", "a", "banana", "rhoh", "foo_bar", "HeatRelease", "Y(N2)",
-              "pressure", "volFrac", "Y(CH2(S))", "avg.p", "z_velocity"]
+              "pressure", "volFrac", "Y(CH2(S))", "avg.p", "z_velocity",
+              # names differing from another one by letter case only, or by a suffix
+              "Temp", "Y(h2)", "temp_2", "phi "[:3] + "_x",
+              # names that read as numbers (tracers numbered by the user)
+              "1", "2", "1e3"]
 
 LENGTHS = [1.0, 0.016, 0.32, 2.5, 100.0, 0.001, 0.7, 12.8]
 ORIGINS = [0.0, 0.5, -0.5, 1.0, -1.0, 3.7, -3.7, 10.0, -10.0, 0.123]
-TIMES = [0.25, 0.0, 1.3924182125972017e-08, -2.5, 1e-300, 70100.0, 0.49947225144556617, 3.0]
+TIMES = [0.25, 0.0, 1.3924182125972017e-08, -2.5, 1e-300, 70100.0, 0.49947225144556617, 3.0, 6.96e-10, 1e+20, 1e-05, 123456789.0]
 
 
 # --------------------------------------------------------------------------- strategies
@@ -126,7 +130,7 @@ def payloads(draw, kinds=("coded", "random", "special")):
 def plot_specs(draw, ndims=None, min_levels=1, max_levels=3, max_cells=6000, min_fields=1,
                max_fields=6, payload_kinds=("coded", "random", "special"), origin=True,
                aniso=True, fields=None, layouts=("single", "scatter", "nonmono"),
-               force_no_unit=None, field_pool=None, required_fields=(), max_nb0=5, thin=False, many=False):
+               force_no_unit=None, field_pool=None, required_fields=(), max_nb0=5, thin=False, many=False, level_prefix=False):
     mesh = draw(mesh_specs(ndims=ndims, min_levels=min_levels, max_levels=max_levels,
                            max_cells=max_cells, layouts=layouts, force_no_unit=force_no_unit,
                            max_nb0=max_nb0, thin=thin))
@@ -137,7 +141,12 @@ def plot_specs(draw, ndims=None, min_levels=1, max_levels=3, max_cells=6000, min
         # keep the byte count of a many-field plotfile in line with the others
         while int(np.prod(mesh["nb0"])) * mesh["bf"] ** mesh["ndims"] * len(flds) > 4 * max_cells and max(mesh["nb0"]) > 1:
             mesh["nb0"][int(np.argmax(mesh["nb0"]))] -= 1
-    return dict(mesh=mesh, geom=geom, fields=list(flds),
+    extra = {}
+    if mesh["ndims"] == 2 and draw(st.integers(0, 2 ** 16)) % 4 == 0:
+        extra["coord_sys"] = 1                  # cylindrical (r, z): legal for 2D plotfiles, carried by the Header only
+    if level_prefix and draw(st.integers(0, 2 ** 16)) % 5 == 0:
+        extra["level_prefix"] = draw(st.sampled_from(["Lev_", "amr_level", "L"]))
+    return dict(mesh=mesh, geom=geom, fields=list(flds), **extra,
                 time=draw(st.sampled_from(TIMES)), step=draw(st.sampled_from([7, 0, 70100])),
                 payload=draw(payloads(payload_kinds)),
                 style=draw(st.sampled_from(["amrex", "tool", "decimal15"])),
@@ -351,6 +360,10 @@ class Plot:
         return tuple(hi[d] - lo[d] + 1 for d in range(self.ndims))
 
     # -- data
+    def level_dir(self, l):
+        """directory of level l as stated by the plotfile header (AMReX's levelPrefix is 'Level_' unless the writer chose another)"""
+        return f"{self.spec.get('level_prefix', 'Level_')}{l}"
+
     def box_data(self, l, b):
         key = (l, b)
         if key not in self._cache:
@@ -424,6 +437,10 @@ class Plot:
             lab.append("many-fields(>12)")
         if self.payload.get("zero_boxes"):
             lab.append("all-zero-boxes")
+        if self.spec.get("coord_sys"):
+            lab.append("coord-sys:RZ")
+        if self.spec.get("level_prefix"):
+            lab.append("custom-level-directories")
         if any(hi[d] == lo[d] for lv in self.levels for lo, hi in lv["boxes"] for d in range(nd)):
             lab.append("one-cell-thick-box")
         if max(len(lv["boxes"]) for lv in self.levels) > 1:
@@ -570,17 +587,17 @@ def write(plot, path):
         h.write(" ".join(str(plot.step) for _ in range(L + 1)) + tb + "\n")
         for l in range(L + 1):
             h.write(" ".join(fmt(x) for x in plot.dx[l]) + tb + "\n")
-        h.write("0\n0\n")
+        h.write(f"{int(plot.spec.get('coord_sys', 0))}\n0\n")
         for l, lev in enumerate(plot.levels):
             h.write(f"{l} {len(lev['boxes'])} {fmt(plot.time)}\n")
             h.write(f"{plot.step}\n")
             for b in range(len(lev["boxes"])):
                 for a, c in plot.phys_box(l, b):
                     h.write(f"{fmt(a)} {fmt(c)}\n")
-            h.write(f"Level_{l}/Cell\n")
+            h.write(f"{plot.level_dir(l)}/Cell\n")
     all_offsets = {}
     for l, lev in enumerate(plot.levels):
-        ld = os.path.join(path, f"Level_{l}")
+        ld = os.path.join(path, plot.level_dir(l))
         os.makedirs(ld)
         nb = len(lev["boxes"])
         offsets = [None] * nb
